@@ -49,7 +49,7 @@ func init() {
 				prof.RememberMode = 1
 				tag := uint64(c.Seed)<<32 | uint64(c.Index) | 1<<52
 				cfgs := []InstCfg{{Kind: "pollard"}, {"mapfull", []uint8{0, 5, 63}[c.Index%3]}, {"mappartial", []uint8{63, 0, 2}[c.Index%3]}}
-				s := genForestScenario(c.Rng, tag, cfgs, fGenOpts{Profile: prof, Rounds: 1 + c.Rng.Intn(3), Undo: true, PartialOps: true, ForceEmptyRootOverwrite: c.Index%4 == 0, Reload: c.Index%4 == 1})
+				s := genForestScenario(c.Rng, tag, cfgs, fGenOpts{Profile: prof, Rounds: 1 + c.Rng.Intn(3), Undo: true, PartialOps: true, ForceEmptyRootOverwrite: c.Index%4 == 0, Reload: c.Index%4 == 1, JunkProofs: c.Index%4 == 2})
 				if c.Index%8 == 5 {
 					s.LeafMode = "readd"
 				}
